@@ -72,3 +72,29 @@ Print Assumptions C05_compact.
 (* sensitivity: pick without sealing (defect D3) resurrects a deleted key; a wrong DeleteRecords counter does too *)
 Definition C05_pinned_refuted := pick_without_seal_refuted.
 Definition C05_counter_refuted := wrong_counter_refuted.
+
+(* ---- the Go arithmetic this property rests on, AS TRANSLATED FROM THE CURRENT SOURCES by tools/gotrans
+   (gen/Funcs.v, operators in GoSem.v), equals the model's, for all values of the Go types ---- *)
+From Coq Require Import ZArith NArith Bool.
+From Pogreb Require Import Base Record Index GoSem FuncsIndexCheck FuncsRecordCheck FuncsLogCheck FuncsFSCheck.
+From Pogreb.gen Require Funcs Consts.
+Import Funcs.
+Open Scope Z_scope.
+
+Theorem C05_go_promote_other :
+  forall (h seg off : N) (s : slot),
+  go_promote_other (Z.of_N h) (Z.of_N (sl_h s)) (Z.of_N off) (Z.of_N (sl_off s)) (Z.of_N seg) (Z.of_N (sl_seg s)) = negb (rp_hit h seg off s).
+Proof. exact promote_other_ok. Qed.
+Print Assumptions C05_go_promote_other.
+
+Theorem C05_go_pick_too_small :
+  forall size minseg : N, (size < 2 ^ 63)%N -> (minseg < 2 ^ 32)%N ->
+  go_pick_too_small (Z.of_N size) (Z.of_N minseg) = (u32 size <? minseg)%N.
+Proof. exact pick_too_small_ok. Qed.
+Print Assumptions C05_go_pick_too_small.
+
+Theorem C05_go_kvSize :
+  forall ks vs : N, (ks < 2 ^ 16)%N -> (vs < 2 ^ 31)%N -> go_kvSize (Z.of_N ks) (Z.of_N vs) = Z.of_N (ks + vs).
+Proof. exact kvSize_ok. Qed.
+Print Assumptions C05_go_kvSize.
+
